@@ -19,6 +19,7 @@ func VerifC11LocksV1() {
 	nd.Track(c)
 	tbl := aws.String(vTbl)
 	k := nd.StringN("k", 1)
+	ctx := aws.BackgroundContext()
 	secs := []struct {
 		name string
 		f    func()
@@ -51,8 +52,35 @@ func VerifC11LocksV1() {
 		{"SetInterpreter", func() { c.SetInterpreter(interpreter.NewNativeInterpreter()) }},
 		{"ActivateDebug", func() { c.ActivateDebug() }},
 		{"SetItemCollectionMetrics", func() { SetItemCollectionMetrics(c, map[string][]*dynamodb.ItemCollectionMetrics{}) }},
+		{"GetNativeInterpreter", func() { c.GetNativeInterpreter() }},
+		// the ...WithContext entry points of the dynamodbiface.DynamoDBAPI methods the client implements
+		{"PutItemWithContext", func() {
+			c.PutItemWithContext(ctx, &dynamodb.PutItemInput{TableName: tbl, Item: vItem{"p": vS(k), "v": vS("x")}})
+		}},
+		{"GetItemWithContext", func() { c.GetItemWithContext(ctx, &dynamodb.GetItemInput{TableName: tbl, Key: vItem{"p": vS(k)}}) }},
+		{"UpdateItemWithContext", func() {
+			c.UpdateItemWithContext(ctx, &dynamodb.UpdateItemInput{TableName: tbl, Key: vItem{"p": vS(k)}, UpdateExpression: aws.String("SET v = :x"), ExpressionAttributeValues: vItem{":x": vS("y")}})
+		}},
+		{"DeleteItemWithContext", func() { c.DeleteItemWithContext(ctx, &dynamodb.DeleteItemInput{TableName: tbl, Key: vItem{"p": vS(k)}}) }},
+		{"QueryWithContext", func() {
+			c.QueryWithContext(ctx, &dynamodb.QueryInput{TableName: tbl, KeyConditionExpression: aws.String("p = :p"), ExpressionAttributeValues: vItem{":p": vS(k)}})
+		}},
+		{"ScanWithContext", func() { c.ScanWithContext(ctx, &dynamodb.ScanInput{TableName: tbl}) }},
+		{"BatchWriteItemWithContext", func() {
+			c.BatchWriteItemWithContext(ctx, &dynamodb.BatchWriteItemInput{RequestItems: map[string][]*dynamodb.WriteRequest{vTbl: {{PutRequest: &dynamodb.PutRequest{Item: vItem{"p": vS("b")}}}}}})
+		}},
+		{"TransactWriteItemsWithContext", func() { c.TransactWriteItemsWithContext(ctx, &dynamodb.TransactWriteItemsInput{}) }},
+		{"DescribeTableWithContext", func() { c.DescribeTableWithContext(ctx, &dynamodb.DescribeTableInput{TableName: tbl}) }},
+		{"CreateTableWithContext", func() { c.CreateTableWithContext(ctx, generateAddTableInput("other2", "p", "")) }},
+		{"DeleteTableWithContext", func() { c.DeleteTableWithContext(ctx, &dynamodb.DeleteTableInput{TableName: aws.String("other2")}) }},
+		{"UpdateTableWithContext", func() {
+			c.UpdateTableWithContext(ctx, &dynamodb.UpdateTableInput{TableName: tbl, GlobalSecondaryIndexUpdates: []*dynamodb.GlobalSecondaryIndexUpdate{{Delete: &dynamodb.DeleteGlobalSecondaryIndexAction{IndexName: aws.String("late2")}}}})
+		}},
 	}
 	setups := map[string]func(){
+		"CreateTableWithContext": func() { c.DeleteTable(&dynamodb.DeleteTableInput{TableName: aws.String("other2")}) },
+		"DeleteTableWithContext": func() { AddTable(c, "other2", "p", "") },
+		"UpdateTableWithContext": func() { AddIndex(c, vTbl, "late2", "g", "") },
 		"CreateTable": func() { c.DeleteTable(&dynamodb.DeleteTableInput{TableName: aws.String("other")}) },
 		"DeleteTable": func() { AddTable(c, "other", "p", "") },
 		"UpdateTable": func() {
